@@ -349,6 +349,13 @@ def check_exchange(S, rec, rng):
     body = bytes(rng.choice(b"ab\r\n0") for _ in range(rng.randint(0, 30)))
     use_chunked = rng.random() < 0.5
     hdrs = [("Host", "h.example"), ("X-Rep", "a"), ("X-Rep", "b"), ("X_Under", "evil"), ("X-Under", "good"), ("Content-Type", "text/x; p=1")]
+    # a repeated field whose lines are empty in some positions: every line counts
+    tagvals = rng.choice([None, None, ["", "b"], ["a", "", "c"], ["", ""], ["a", ""], [""]])
+    if tagvals is not None:
+        for tv in tagvals:
+            hdrs.insert(rng.randrange(1, len(hdrs) + 1), ("X-Tag", tv))
+        rec.observe("repeated_headers_with_empty_lines")
+        tagvals = [v for k, v in hdrs if k == "X-Tag"]  # in the order of the lines on the wire
     if use_chunked:
         hdrs.append(("Transfer-Encoding", "chunked"))
         wire = chunked(rng, body, rng.choice([b"\r\n", b"\n"]))
@@ -389,11 +396,18 @@ def check_exchange(S, rec, rng):
     reuse_headers = plan == "normal" and rng.random() < 0.25
     shared_h = []
 
+    FAIL_WITH = rng.choice([ZeroDivisionError, ZeroDivisionError, FileNotFoundError, OSError, PermissionError, KeyError])
+
     def app(environ, start_response):
         seen["env"] = dict(environ)
         try:
             return app_body(environ, start_response)
-        except ZeroDivisionError:
+        except (ZeroDivisionError, FileNotFoundError, PermissionError, KeyError):
+            raise
+        except OSError as e:
+            if plan == "raise_before_body" and "application failed" in str(e):
+                raise
+            seen.setdefault("error", f"{type(e).__name__}: {e}")
             raise
         except UnicodeEncodeError:
             if plan == "unencodable_header":
@@ -482,7 +496,8 @@ def check_exchange(S, rec, rng):
                 w = start_response(status, h, _sys.exc_info())
         elif plan == "raise_before_body":
             start_response(status, [("X-App", "1")])
-            raise ZeroDivisionError("application failed before the first body byte")
+            # whatever the application dies of (a missing file, a backend that hung up are OSErrors too)
+            raise FAIL_WITH("application failed before the first body byte")
         else:
             w = start_response(status, h)
         if use_write:
@@ -554,6 +569,8 @@ def check_exchange(S, rec, rng):
         return bad("C19/query-string-differs", f"{env['QUERY_STRING']!r} vs {qs!r}")
     if env.get("HTTP_X_REP") != "a,b":
         return bad("C19/repeated-header-not-joined", f"{env.get('HTTP_X_REP')!r}")
+    if tagvals is not None and env.get("HTTP_X_TAG") != ",".join(tagvals):
+        return bad("C19/repeated-header-not-joined", f"X-Tag lines {tagvals!r} arrived as {env.get('HTTP_X_TAG')!r}")
     if env.get("HTTP_X_UNDER") != "good":
         return bad("C19/underscore-header-smuggled", f"{env.get('HTTP_X_UNDER')!r}")
     if env.get("CONTENT_TYPE") != "text/x; p=1":
@@ -605,6 +622,9 @@ def check_exchange(S, rec, rng):
             return rbad("C19/failed-response-delivered-as-complete", f"the application produced {chunks[0]!r} and failed; the client received a complete response with the body {got[:120]!r}...")
         return
     if plan == "raise_before_body":
+        case["application_fails_with"] = FAIL_WITH.__name__
+        if resp["code"] != 500:
+            return rbad("C19/application-failure-not-answered-with-500", f"the application raised {FAIL_WITH.__name__} before its first body byte; the client received {out[:120]!r}")
         # the server answers with its own error page: only the framing is checked
         if cl0 and len(resp["rest"]) != int(cl0[0]) and method != "HEAD":
             return rbad("C19/response-body-differs", f"error page: Content-Length {cl0[0]} but {len(resp['rest'])} body bytes")
